@@ -21,7 +21,7 @@ use std::time::Duration;
 pub static INFO: PropInfo = PropInfo {
     id: "C19",
     level: "exploration",
-    rule: "one evaluation = one datagram handed to NetcodeServer::process_packet from an address that has no connected session at that moment (unknown or half-open), in a server that is empty, partly filled or full. Generators: valid requests (exact 1078 bytes, padded up to 1400, arbitrary unused prefix nibble, repeated, replayed from other addresses), truncated / bit-flipped / single-field-corrupted requests, requests with expired, foreign-key, foreign-protocol or wrong-host tokens (host lists one port or one address bit away from the server's own, or its IPv4-mapped form with another port), valid responses (built from the challenge the server issued), responses with corrupted or foreign challenge blobs, under a wrong key, from addresses without a half-open session, replayed after use, other sealed packet kinds, short and random strings; virtual time advances so that tokens expire. The harness minted every token and opens every challenge, so validity comes from its own ledger: valid token = the 1077 bytes after the prefix equal the request of a ledger token minted for this server (key, protocol, host list) and floor(server time) < expiry; valid response = opens as a Response under the client-to-server key of a ledger token and carries a (sequence, blob) pair this server instance issued. Oracle on the returned ServerResult: at most the one datagram of the result, addressed to the source, strictly shorter than the input, and none at all unless the input carried a valid token or a valid response. Non-trivial = the datagram came from an address without a connected session; distinct = (server fill state, generator, datagram hash). One run in 40 is a HISTORY-PRESSURE run instead: more than 2048 distinct valid tokens are presented (the server's used-token table holds 2048 and replaces an oldest entry), the clock advances, token T is answered at X, 1-3 further fresh tokens follow, then T's request is replayed from Y != X and must get no answer (entries strictly older than T's exist at every later insertion, so T's binding must still be there).",
+    rule: "one evaluation = one datagram handed to NetcodeServer::process_packet from an address that has no connected session at that moment (unknown or half-open), in a server that is empty, partly filled or full. Generators: valid requests (exact 1078 bytes, padded up to 1400, arbitrary unused prefix nibble, repeated, replayed from other addresses), truncated / bit-flipped / single-field-corrupted requests, requests with expired, foreign-key, foreign-protocol or wrong-host tokens (host lists one port or one address bit away from the server's own, or its IPv4-mapped form with another port), valid responses (built from the challenge the server issued), responses with corrupted or foreign challenge blobs, under a wrong key, from addresses without a half-open session, replayed after use, other sealed packet kinds, short and random strings; virtual time advances so that tokens expire. The harness minted every token and opens every challenge, so validity comes from its own ledger: valid token = the 1077 bytes after the prefix equal the request of a ledger token minted for this server (key, protocol, host list) and floor(server time) < expiry; valid response = opens as a Response under the client-to-server key of a ledger token and carries a (sequence, blob) pair this server instance issued. Oracle on the returned ServerResult: at most the one datagram of the result, addressed to the source, strictly shorter than the input, and none at all unless the input carried a valid token or a valid response. Non-trivial = the datagram came from an address without a connected session; distinct = (server fill state, generator, datagram hash). One run in 40 is a HISTORY-PRESSURE run instead: more than 2048 distinct valid tokens are presented (the server's used-token table holds 2048 and replaces an oldest entry), the clock advances, token T is answered at X, 1-3 further fresh tokens follow, then T's request is replayed from Y != X and must get no answer (entries strictly older than T's exist at every later insertion, so T's binding must still be there). One run in 30 is a LATE-RESPONSE run: a token with 2-4 s to live is presented (in half of the runs after a 600 s token from the same address, whose half-open session it takes over), the clock passes its expiry in one or many steps, and the correctly sealed response to its genuine challenge must get no answer (a response is valid only while its token is); timely responses are the control.",
     assumptions: &[
         "a ServerResult carries at most one datagram; further output could only come from update_client, which is polled after a sample of the inputs",
         "a panic (C07's business) ends the run without a C19 verdict for that datagram",
@@ -54,6 +54,8 @@ pub static INFO: PropInfo = PropInfo {
         ("from.unknown", 1000),
         ("from.pending", 1000),
         ("history_pressure_runs", 5),
+        ("late_response_after_expiry", 20),
+        ("late_response_after_expiry_superseding_token", 5),
     ],
     engines_quick: &["e1"],
     engines_thorough: &["e1"],
@@ -139,6 +141,9 @@ pub fn one_run(ctx: &Ctx, out: &mut Outcome, run_seed: u64) {
     let mut r = Rng::new(run_seed);
     if ctx.replay_mode.as_deref() == Some("history-pressure") || (ctx.replay_mode.is_none() && r.below(40) == 0) {
         return history_pressure_run(ctx, out, run_seed, &mut r);
+    }
+    if ctx.replay_mode.as_deref() == Some("late-response") || (ctx.replay_mode.is_none() && r.below(30) == 0) {
+        return late_response_run(ctx, out, run_seed, &mut r);
     }
     let mut budget = r.urange(120, 220);
     let mut episodes = 0;
@@ -723,5 +728,69 @@ fn history_pressure_run(ctx: &Ctx, out: &mut Outcome, run_seed: u64, r: &mut Rng
     out.count("noreply.token-used-from-other-address.after-history-pressure");
     if out.samples.len() < out.max_samples {
         out.sample(json!({"mode": "history-pressure", "run_seed": format!("{:#x}", run_seed), "fill_tokens": n_fill, "fresh_tokens_between": extra}));
+    }
+}
+
+/// A response is valid only while its token is: an address presents a token (sometimes a long-lived one first and then
+/// a short-lived one, which takes over the half-open session), the clock passes the expiry of the token whose
+/// challenge is then answered, and that response - correctly sealed, echoing the genuine challenge - must get no
+/// answer. A timely response in the same setting must (the control that keeps the run meaningful).
+fn late_response_run(ctx: &Ctx, out: &mut Outcome, run_seed: u64, r: &mut Rng) {
+    use super::netproto_util::{challenge_of, response_bytes};
+    let maxc = r.urange(1, 3);
+    let mut srv = new_srv(r, maxc, 1, false);
+    let protocol = srv.protocol_id;
+    let a = client_addr(r, 77);
+    let mut hist: Vec<Value> = Vec::new();
+    let supersede = r.chance(1, 2);
+    if supersede {
+        let same_id = r.chance(1, 2);
+        let m0 = mint_for(r, &srv, if same_id { 500 } else { 499 }, 15, 600);
+        let res = srv.process(a, &request_of(&m0));
+        hist.push(json!({"step": "long-lived token (600 s) presented first", "result": res.kind()}));
+    }
+    let life = r.range(2, 4);
+    let m = mint_for(r, &srv, 500, 15, life);
+    let res = srv.process(a, &request_of(&m));
+    hist.push(json!({"step": format!("token with {} s to live presented", life), "result": res.kind()}));
+    let Some(blob) = res.outgoing().and_then(|(_, rep)| challenge_of(rep, protocol, &m.private.server_to_client_key)) else {
+        out.count("late_response_runs_void");
+        out.eval(mix(&[0x1A7E, run_seed]), false);
+        return;
+    };
+    let late = r.chance(2, 3);
+    let total_ms = if late { (life * 1000) + r.range(0, 1500) } else { r.range(0, (life - 1) * 1000) };
+    let step = *r.pick(&[total_ms.max(1), 1000, 100, 16]);
+    let mut left = total_ms;
+    while left > 0 {
+        let d = step.min(left);
+        srv.update(Duration::from_millis(d));
+        left -= d;
+    }
+    let expired = srv.now.as_secs() >= m.expire;
+    let resp = response_bytes(protocol, 1, &m.private.client_to_server_key, &blob);
+    let res = srv.process(a, &resp);
+    hist.push(json!({"step": format!("clock advanced {} ms in steps of {} ms, response presented", total_ms, step), "token_expired": expired, "result": res.kind()}));
+    out.count("in_scope_datagrams");
+    out.eval(mix(&[0x1A7F, run_seed, expired as u64]), true);
+    if expired {
+        out.count("late_response_after_expiry");
+        if supersede {
+            out.count("late_response_after_expiry_superseding_token");
+        }
+        if let Some((dst, reply)) = res.outgoing() {
+            out.violation(
+                ctx,
+                "C19/reply-to-invalid/response-for-expired-token",
+                "datagrams that carry neither a valid connect token nor a valid response get no answer",
+                format!("the response to the challenge of a token that expired at server second {} was presented at second {} and answered with {} bytes to {} ({})", m.expire, srv.now.as_secs(), reply.len(), dst, res.kind()),
+                json!({"property": "C19", "engine": ctx.engine, "run_seed": format!("{:#x}", run_seed), "mode": "late-response", "steps": hist}),
+            );
+        }
+    } else {
+        out.count("late_response_control_timely");
+        if !matches!(res, SResult::Connected { .. }) {
+            out.count("late_response_control_not_connected");
+        }
     }
 }
